@@ -110,6 +110,23 @@ CHECKS["C17"] = dict(
          "exact independent solve of the returned matrices.",
     technique="Lean 4 theorems over Model/Matrices.lean (scatter-add as filtered sums, summation exchange) + differential check of the real builder",
     ref="§8 C17")
+CHECKS["C14"] = dict(
+    text="Theorems for every useful life, lead time and limit (no bound) and EVERY listed event (a superset of the positive-probability ones): "
+         "the successor of a listed state under a listed action is a listed state and state_space[index(successor)] is exactly that vector, for "
+         "Forest, De Moor (both issuing policies), Hendrix and Mirjalili; state spaces have the documented product sizes and no duplicate rows "
+         "(from the C19 range-space theorems). Tie: complete (s,a,e) tables of the real problems on a parameter grid - closure, index round trip, "
+         "documented sizes, duplicates - and equality of spaces and successor indices with the model.",
+    technique="Lean 4 proofs of closure (issuing keeps every age class in [0,Q], pipeline shift, weekday mod 7) on models of the four transition functions + full-table differential check",
+    ref="§8 C14")
+CHECKS["C15"] = dict(
+    text="Theorems for every vector length and non-negative demand/stock: the forward scan equals the closed-form newest-first rule and the "
+         "reverse scan the oldest-first rule; units are conserved by issuing (opening = min(demand, stock) + remaining); a class is drawn on "
+         "only after every class visited before it is empty; De Moor: successor = shifted pipeline ++ (receipt :: remaining without the expiring "
+         "class) and opening + receipt = issued + expired + closing; Hendrix per-product conservation; Mirjalili weekday/fixed-cost/holding "
+         "formula; Forest step. Tie: complete tables (successor and reward, exact with dyadic costs) of the real problems vs the model and vs an "
+         "independent scalar python model of the documented dynamics.",
+    technique="Lean 4 proofs about the issuing scans (closed form, conservation, order) + full-table differential check against model and independent scalar model",
+    ref="§8 C15")
 PENDING = {}
 
 
